@@ -76,6 +76,17 @@ def gen(c):
             o = dict(kind="cert", serial=serials[i % len(serials)], nb=20000, nbs=0, na=20300, nas=0, cn="414c494345", cntag=12, org="-", icn="526f6f74", icntag=12, iorg="-", exts=",".join(exts), sid=b"", revoked="-", seed=700 + i, light=1)
             add(**o)
             objs.append((o, [], []))
+    # names whose encoded size walks across the 127/128 switch (subject of certificates and requests), serial numbers of every length 1..20 with and without a set top bit
+    for i, olen in enumerate(range(24, 44) if not c.quick else range(28, 38)):
+        for kind in ("cert", "req"):
+            o = dict(kind=kind, serial=serials[i % len(serials)], nb=20000, nbs=0, na=20300, nas=0, cn="41" * 60, cntag=12, org="4f" * olen, icn="526f6f74", icntag=12, iorg="-", exts="ku_sign!", sid=b"", revoked="-", seed=800 + i, light=1)
+            add(**o)
+            objs.append((o, [], []))
+    for slen in range(1, 21):
+        for top in (0x01, 0x7f, 0x80, 0xff):
+            o = dict(kind="cert", serial=bytes([top]) + bytes([0x5a]) * (slen - 1), nb=20000, nbs=0, na=20300, nas=0, cn="414c494345", cntag=12, org="-", icn="526f6f74", icntag=12, iorg="-", exts="-", sid=b"", revoked="-", seed=900 + slen, light=1)
+            add(**o)
+            objs.append((o, [], []))
     return lines, objs, serials
 
 
